@@ -33,8 +33,9 @@ theorem xor_cancel (a b : Nat) : a ^^^ (b ^^^ a) = b := by
 
 /-- **a dictionary reference found at `pos` becomes a command the RFC decoder expands to the input** -/
 theorem emit_dict (w : WordOracle) (window md : Nat) (large : Bool)
-    (data : ByteArray) (k : Nat) (hist mb : Bytes) (lo : Nat)
-    (hv : RingView data k (hist ++ mb) lo (hist.length + mb.length))
+    (data : ByteArray) (k tail : Nat) (hist mb : Bytes) (lo : Nat)
+    (hv : RingView data k tail (hist ++ mb) lo (hist.length + mb.length)) (htail : tail ≤ 2 ^ k)
+    (hmt : mb.length ≤ tail)
     (d : DecSt) (hout : d.out = hist ++ mb.take d.cursor)
     (pos ins : Nat) (hpos : pos = hist.length + d.cursor + ins) (hlo : lo ≤ pos) (sr : SR)
     (c0 c1 c2 c3 : Int) (rest : List Int) (hring : d.ring = [c0, c1, c2, c3])
@@ -104,7 +105,8 @@ theorem emit_dict (w : WordOracle) (window md : Nat) (large : Bool)
     · rw [List.length_take, List.length_take, List.length_drop]; omega
     · intro j hj1 hj2
       have hj : j < sr.len := by rw [List.length_take] at hj1; omega
-      have hr := hv.at pos j (by omega) (by omega) (by omega)
+      have hr := hv.at htail pos j (by omega) (by omega)
+        (by have := Nat.mod_lt pos (Nat.pow_pos (n := k) (show 0 < 2 by decide)); omega)
       rw [h10 j hj] at hr
       rw [List.getElem_take, List.getElem_take, List.getElem_drop]
       have e1 : x.word.getD j 0 = x.word[j]'(by omega) := by
@@ -144,8 +146,9 @@ theorem emit_dict (w : WordOracle) (window md : Nat) (large : Bool)
 the text and the looked-up dictionary slots agreeing with the decoder's word oracle (`SlotOK`), every
 sound search result becomes a command the RFC decoder executes to the input bytes, and the
 command is `cmdOK` -/
-theorem emitHyp_all (C : Ctx) (p : Params) (large : Bool) (hnp : p.npostfix = 0) (hnd : p.ndirect = 0)
-    (hv : RingView C.data C.k (C.hist ++ C.mb) C.lo (C.hist.length + C.mb.length))
+theorem emitHyp_all (C : Ctx) (p : Params) (large : Bool) (hnp : p.npostfix = 0) (hnd : p.ndirect = 0) (tail : Nat)
+    (hv : RingView C.data C.k tail (C.hist ++ C.mb) C.lo (C.hist.length + C.mb.length))
+    (htail : tail ≤ 2 ^ C.k) (hmt : C.mb.length ≤ tail)
     (hlo : C.lo ≤ C.hist.length - maxBackwardLimit p)
     (hwin : maxBackwardLimit p ≤ 2 ^ 30) (hstd : large = false → maxBackwardLimit p ≤ 2 ^ 26 - 4)
     (hmd : large = false → p.maxDistance ≤ 2 ^ 26 - 4)
@@ -153,13 +156,13 @@ theorem emitHyp_all (C : Ctx) (p : Params) (large : Bool) (hnp : p.npostfix = 0)
     EmitHyp (SlotOK C.w) C p (fun c => cmdOK (distAlphabetSize large 0 0) 0 0 c = true) := by
   intro d pos ins sr cache hout hpos hlt hring hc hcl hs
   rcases hs with hcopy | ⟨items, hslot, hd⟩
-  · exact emitHyp_copy C p large hnp hnd hv hlo (by omega) hstd hmb d pos ins sr cache hout hpos hlt hring hc hcl
+  · exact emitHyp_copy C p large hnp hnd tail hv htail hmt hlo (by omega) hstd hmb d pos ins sr cache hout hpos hlt hring hc hcl
       (Or.inl hcopy)
   · obtain ⟨c0, c1, c2, c3, rest, rfl⟩ : ∃ c0 c1 c2 c3 rest, cache = c0 :: c1 :: c2 :: c3 :: rest := by
       match cache, hcl with
       | c0 :: c1 :: c2 :: c3 :: rest, _ => exact ⟨c0, c1, c2, c3, rest, rfl⟩
-    obtain ⟨cmd, he, hds, hi, hcp, hne, hok⟩ := emit_dict C.w (maxBackwardLimit p) p.maxDistance large C.data C.k
-      C.hist C.mb C.lo hv d hout pos ins hpos (by omega) sr c0 c1 c2 c3 rest (by simpa using hring) hc (by omega) hwin
+    obtain ⟨cmd, he, hds, hi, hcp, hne, hok⟩ := emit_dict C.w (maxBackwardLimit p) p.maxDistance large C.data C.k tail
+      C.hist C.mb C.lo hv htail hmt d hout pos ins hpos (by omega) sr c0 c1 c2 c3 rest (by simpa using hring) hc (by omega) hwin
       hmd (C.hist.length + C.mb.length - pos) (by omega) items hslot hd
     unfold EmitGood
     rw [hnp, hnd]
@@ -171,8 +174,9 @@ namespace Example
 
 def text : List Nat :=
   [1,2,3,4,5,6,7,8, 116,105,109,101,9,10,11,12, 13,14,15,16,17,18,19,20, 21,22,23,24,25,26,27,28]
-/-- ring of 32 bytes followed by the mirrored 8-byte tail -/
-def data : ByteArray := ⟨((text ++ text.take 8).map (fun n => UInt8.ofNat n)).toArray⟩
+/-- what `RingBufferWrite` leaves after 32 bytes of a first lap: ring of 64 bytes (32 written),
+the 32-byte tail NOT filled (first-lap bytes are not mirrored), 7 slack bytes, all zero -/
+def data : ByteArray := ⟨((text ++ List.replicate 71 0).map (fun n => UInt8.ofNat n)).toArray⟩
 def hasher : BasicP := ⟨2, fun w => (w.getD 0 0 + 3 * w.getD 1 0) % 16⟩
 def params : Params := ⟨5, 10, 67108860, 0, 0⟩
 /-- word 5 of length 4, "time" -/
@@ -203,18 +207,17 @@ theorem dict_ok : DictFaithful oracle dict data := by
   · rw [if_pos hc]; exact slot_ok
   · rw [if_neg hc] at hne; exact absurd rfl hne
 
-theorem ring_ok : RingView data 5 ([] ++ text) 0 (0 + 32) := by
-  refine ⟨?_, ?_, by decide⟩
+theorem ring_ok : RingView data 6 32 ([] ++ text) 0 (0 + 32) := by
+  refine ⟨?_, ?_⟩
   · intro p _ hp
-    have : ∀ p, p < 32 → (data.get! (p % 2 ^ 5)).toNat = ([] ++ text).getD p 0 := by decide +kernel
+    have : ∀ p, p < 32 → ringBytes data (p % 2 ^ 6) = ([] ++ text).getD p 0 := by decide +kernel
     exact this p hp
-  · intro i h1 h2
-    have : ∀ i, i < 40 → 2 ^ 5 ≤ i → data.get! i = data.get! (i - 2 ^ 5) := by decide +kernel
-    exact this i h2 h1
+  · intro p _ hp h64
+    exact absurd h64 (by omega)
 
 /-- the run: 8 literals, then the dictionary word at distance `8 + 5 + 1 = 14` beyond the 8 bytes of
 history, then 20 pending literals -/
-theorem run : (createBackwardReferences (basicOps hasher true 540 dict data (2 ^ 5 - 1)) params 32 0
+theorem run : (createBackwardReferences (basicOps hasher true 540 dict data (2 ^ 6 - 1)) params 32 0
     (Array.replicate 32 0, ⟨0, 0⟩) [4, 11, 15, 16] 0 0).map (fun r => (r.cmds, r.lastInsertLen, r.cache))
     = some ([⟨8, 4, 1, 186, 3092⟩], 20, [4, 11, 15, 16]) := by decide +kernel
 
